@@ -195,6 +195,15 @@ def observe(c):
     # the library's own answer once more at the end: a checker must not remember the rejected answers it has seen in between
     if len(answers) > 1:
         answers.append({'text': own, 'own': True})
+    if ex == 'accrej_dfa' and c['perturb']:
+        # a DFA that differs from the reference on the empty word only: a new initial state with the transitions of the old one
+        # and the opposite acceptance
+        d0 = c['D']
+        nq = 'n0'
+        if nq not in d0['Q']:
+            d1 = {'Q': d0['Q'] + [nq], 'Sigma': d0['Sigma'], 'q0': nq, 'delta': d0['delta'] + [[nq, a_, t_] for (q_, a_, t_) in d0['delta'] if q_ == d0['q0']],
+                  'F': d0['F'] + ([] if d0['q0'] in d0['F'] else [nq])}
+            answers.insert(1, {'text': conv.dfa_text(d1), 'own': False})
     out = []
     for a in answers:
         res = check(a['text'])
